@@ -179,7 +179,8 @@ def rules_for(draw, op_out_names, ops_present, max_rules=5, allow_skip=True,
   ops_present: quantizer op names present in the model.
   """
   n = draw(st.integers(1, max_rules))
-  regs = regex_pool or regex_alphabet(op_out_names[:6])
+  regs = regex_pool or regex_alphabet(op_out_names[:6] if len(op_out_names) <= 6 else
+                                      op_out_names[:3] + op_out_names[-3:])
   sels = selectors or (['*', '*', '*', 'INPUT', 'OUTPUT'] + list(ops_present) * 2 +
                        ['FULLY_CONNECTED', 'SOFTMAX'])
   out = []
